@@ -94,13 +94,16 @@ def segsOf (c : List IPt) : List (IPt × IPt) :=
   | [] => []
   | a :: _ => (c.zip (c.tail ++ [a]))
 
-def anyProperCross (segs : List (IPt × IPt)) : Option (Nat × Nat) := Id.run do
+/-- two segments cross properly and by more than the tolerance: every endpoint is farther than δ
+from the other segment (a vertex resting on another edge within the snap grid is not a crossing) -/
+def anyProperCross (d2 : Int) (segs : List (IPt × IPt)) : Option (Nat × Nat) := Id.run do
   let arr := segs.toArray
   for i in [0:arr.size] do
     for j in [i+1:arr.size] do
       let (a, b) := arr[i]!
       let (c, d) := arr[j]!
-      if properCross a b c d then return some (i, j)
+      if properCross a b c d && farFromSeg a c d d2 && farFromSeg b c d d2
+          && farFromSeg c a b d2 && farFromSeg d a b d2 then return some (i, j)
   return none
 
 /-- C02: Settle(rule): region preserved, winding ∈ {0,1}, canonical rule independence,
@@ -124,7 +127,7 @@ def checkSettle (rule : Rule) (s : Scene) : String := Id.run do
     else
       skipped := skipped + 1
     idx := idx + 1
-  match anyProperCross (s.R.foldr (fun c acc => segsOf c ++ acc) []) with
+  match anyProperCross s.d2 (s.R.foldr (fun c acc => segsOf c ++ acc) []) with
   | some (i, j) => return s!"FAIL output-crosses seg={i} seg={j}"
   | none => return s!"ok checked={checked} skipped={skipped}"
 
